@@ -219,9 +219,32 @@ Query(q, d, i, n) ==
 VecLen(q, d, i) == Len(RecAt(q, d.k, i)[d.f])
 
 \* the name maps: freshen_xxx walks the table in ascending index order, a later record replaces an earlier one
-Bearers(q, d, name) == {i \in Idxs(q[d.k]) : RecAt(q, d.k, i)[d.f] = name}
+Bearers(q, d, name) == {q[d.k][j].idx : j \in {j \in 1..Len(q[d.k]) : q[d.k][j][d.f] = name}}
 SetMax(S) == CHOOSE x \in S : \A y \in S : y <= x
 Lookup(q, d, name) == IF Bearers(q, d, name) = {} THEN 0 ELSE SetMax(Bearers(q, d, name))
+
+\* ---- the names a lookup is asked for: every stored name and its systematic mutations.  None of them may be
+\*      answered with an entity unless some entity really bears that very name.
+FlipCase(nm) == [j \in 1..Len(nm) |-> IF nm[j] \in 65..90 THEN nm[j] + 32 ELSE IF nm[j] \in 97..122 THEN nm[j] - 32 ELSE nm[j]]
+DropAt(nm, p) == SubSeq(nm, 1, p - 1) \o SubSeq(nm, p + 1, Len(nm))
+DoubleAt(nm, p) == SubSeq(nm, 1, p) \o SubSeq(nm, p, Len(nm))
+Mutations(nm) ==
+  LET n == Len(nm)
+      mid == (n + 1) \div 2
+      ps == IF n = 0 THEN {} ELSE {1, mid, n}
+      scopes == {j \in 1..(n - 1) : nm[j] = 58 /\ nm[j + 1] = 58}
+  IN {<<58, 58>> \o nm, nm \o <<58, 58>>, <<32>> \o nm, Append(nm, 32), Append(nm, 120), FlipCase(nm)}
+     \cup {DropAt(nm, p) : p \in ps} \cup {DoubleAt(nm, p) : p \in ps}
+     \cup {SubSeq(nm, 1, k) : k \in {n - 1, n \div 2} \cap (0..n)}                 \* prefixes
+     \cup {SubSeq(nm, k, n) : k \in {2, mid + 1} \cap (1..(n + 1))}                \* suffixes
+     \cup {SubSeq(nm, j + 2, n) : j \in scopes} \cup {SubSeq(nm, 1, j - 1) : j \in scopes}   \* around every ::
+\* the other name fields of the same table: the scoped name given to the unscoped lookup and so on
+NameFields(k) == CASE k = "t" -> {"name", "scoped", "true"} [] k = "e" -> {"name", "scoped"} [] k = "m" -> {"name", "def"}
+                   [] k = "w" -> {"name", "unique"} [] OTHER -> {"name"}
+NameArgs(q, d) ==
+  LET stored == {q[d.k][j][d.f] : j \in 1..Len(q[d.k])}
+      cross == {q[d.k][j][f] : j \in 1..Len(q[d.k]), f \in NameFields(d.k)}
+  IN stored \cup cross \cup UNION {Mutations(nm) : nm \in stored} \cup {<<>>, <<122, 122>>, <<32>>, <<58, 58>>}
 
 ---------------------------------------------------------------------------
 (* Loading database files into q (what interrogate_request_database + the first query do);
@@ -304,6 +327,11 @@ CONSTANT DbInputs
 \*      fn1 answers for name nm1, files2 are requested (and merged by the next query), lookup function fn2 is asked
 \*      for every name
 CONSTANT StageInputs
+\* ---- inputs of task "first": [name, files1, files2, fn]: files1 are requested and function fn is the FIRST query
+\*      (it must force the load: check_latest), then files2 are requested and fn is asked again, first again
+CONSTANT FirstInputs
+\* the three functions the header documents as not forcing a load (their answers do not depend on database files)
+NoLoadFns == {"interrogate_wrapper_has_pointer", "interrogate_wrapper_pointer", "interrogate_get_wrapper_by_unique_name"}
 
 Init ==
   /\ task \in Tasks
@@ -311,6 +339,7 @@ Init ==
      \/ task = "fptr" /\ FptrInit
      \/ task = "db" /\ inp \in DbInputs
      \/ task = "stage" /\ inp \in StageInputs
+     \/ task = "first" /\ inp \in FirstInputs
   /\ pc = "start" /\ lo = 0 /\ hi = 0 /\ steps = 0 /\ res = Running
   /\ cache = [fresh |-> {}, at |-> [x \in {} |-> 0]]
 
@@ -380,10 +409,18 @@ SLater ==     \* the later lookups
   /\ cache' = Freshen(cache, inp.fn2, Len(inp.files1) + Len(inp.files2))
   /\ Return(0)
 
-Step == \/ (USplit \/ UHash \/ USearch \/ FStart \/ FSearch \/ DEval) /\ steps' = steps + 1 /\ UNCHANGED <<task, inp, cache>>
+\* task "first": lo = files loaded, hi = files requested
+CheckLatest(fn) == IF fn \in NoLoadFns THEN lo ELSE hi
+PReq1 == task = "first" /\ pc = "start" /\ hi' = Len(inp.files1) /\ pc' = "req1" /\ UNCHANGED <<lo, res>>
+PAsk1 == task = "first" /\ pc = "req1" /\ lo' = CheckLatest(inp.fn) /\ pc' = "ans1" /\ UNCHANGED <<hi, res>>
+PReq2 == task = "first" /\ pc = "ans1" /\ hi' = Len(inp.files1) + Len(inp.files2) /\ pc' = "req2" /\ UNCHANGED <<lo, res>>
+PAsk2 == task = "first" /\ pc = "req2" /\ lo' = CheckLatest(inp.fn) /\ pc' = "done" /\ res' = 0 /\ UNCHANGED hi
+
+Step == \/ (PReq1 \/ PAsk1 \/ PReq2 \/ PAsk2) /\ steps' = steps + 1 /\ UNCHANGED <<task, inp, cache>>
+        \/ (USplit \/ UHash \/ USearch \/ FStart \/ FSearch \/ DEval) /\ steps' = steps + 1 /\ UNCHANGED <<task, inp, cache>>
         \/ (SFirst \/ SMerge \/ SLater) /\ steps' = steps + 1 /\ UNCHANGED <<task, inp>>
-Done == pc \in {"done", "aborted"} /\ UNCHANGED vars
-Next == Step \/ Done
+\* (a finished call just stutters: no explicit step, so that a complete behaviour is dumped once)
+Next == Step
 Spec == Init /\ [][Next]_vars /\ WF_vars(Step)
 
 ---------------------------------------------------------------------------
@@ -400,6 +437,7 @@ StepBound ==
   CASE task = "uniq" -> steps <= 3 + Log2Ceil(MaxN + 1) + 1
     [] task = "fptr" -> steps <= 2 + Log2Ceil(MaxMods + 1) + 1
     [] task = "stage" -> steps <= 3
+    [] task = "first" -> steps <= 4
     [] OTHER -> steps <= 1
 
 \* exactness: the answer is the entry itself when the name is present, 0 for every other key, position or length
@@ -414,7 +452,7 @@ Seq2Set(s) == {s[j] : j \in 1..Len(s)}
 
 Codomain(r, v) ==
   CASE r = "i" -> v \in Int [] r = "p" -> v \in Nat [] r = "b" -> v \in BOOLEAN
-    [] r = "s" -> v \in Seq(1..255)
+    [] r = "s" -> DOMAIN v = 1..Len(v) /\ \A j \in 1..Len(v) : v[j] \in 1..255 \/ v[j] > RunBase
 
 DbChecks(q) ==
   /\ \A x \in 1..Len(QF) : LET d == QF[x] IN
@@ -434,19 +472,25 @@ DbChecks(q) ==
   \* LookupSound / LookupAbsent
   /\ \A x \in 1..Len(QF) : QF[x].op = "lookup" =>
        LET d == QF[x] IN
-       \A i \in Idxs(q[d.k]) : \A nm \in {RecAt(q, d.k, i)[d.f], Append(RecAt(q, d.k, i)[d.f], 120)} :
-         LET a == Lookup(q, d, nm) IN
-         /\ a # 0 => Known(q, d.k, a) /\ RecAt(q, d.k, a)[d.f] = nm
-         /\ Bearers(q, d, nm) = {} <=> a = 0
-         /\ Cardinality(Bearers(q, d, nm)) = 1 /\ nm = RecAt(q, d.k, i)[d.f] => a = i
+       /\ \A nm \in NameArgs(q, d) :
+            LET a == Lookup(q, d, nm) IN
+            /\ a # 0 => Known(q, d.k, a) /\ RecAt(q, d.k, a)[d.f] = nm
+            /\ Bearers(q, d, nm) = {} <=> a = 0
+       /\ \A i \in Idxs(q[d.k]) : LET nm == RecAt(q, d.k, i)[d.f] IN
+            Cardinality(Bearers(q, d, nm)) = 1 => Lookup(q, d, nm) = i
 
 DbTotalAndExact == task = "db" /\ Returned => DbChecks(QOf(inp))
+
+\* ---- every function that depends on database files answers on ALL requested files, also as the first query
+FirstSeesAll == task = "first" /\ pc \in {"ans1", "done"} /\ inp.fn \notin NoLoadFns => lo = hi
+\* the database a query of task "first" sees
+FirstQ(in0, n) == LoadAll(EmptyQ, SubSeq(in0.files1 \o in0.files2, 1, n))
 
 \* ---- histories: what a lookup answers is read from the map as it was built
 QFBy(fn) == QF[CHOOSE x \in 1..Len(QF) : QF[x].fn = fn]
 StageFiles(in0) == in0.files1 \o in0.files2
 CachedLookup(in0, c, fn, nm) == Lookup(LoadAll(EmptyQ, SubSeq(StageFiles(in0), 1, c.at[fn])), QFBy(fn), nm)
-StoredNames(q, d) == {RecAt(q, d.k, i)[d.f] : i \in Idxs(q[d.k])}
+StoredNames(q, d) == {q[d.k][j][d.f] : j \in 1..Len(q[d.k])}
 LookupExactOn(q, d, nm, a) == IF Bearers(q, d, nm) = {} THEN a = 0 ELSE a \in Bearers(q, d, nm)
 StagedExact ==
   task = "stage" =>
